@@ -321,6 +321,9 @@ class Parser:
         if k == "num":
             self.eat()
             return ("plit", v)
+        if k == "chr" and v.startswith("b'") and len(v) == 4:
+            self.eat()
+            return ("plit", str(ord(v[2])))          # a byte literal b'x'
         if k == "id":
             path = [self.eat()[1]]
             while self.at("::"):
@@ -1461,6 +1464,15 @@ class Emitter:
             return self.o_ex(init, lambda v: f"let {ptxt} := {v}\n{cont()}")
         if kind == "expr" and any(self.rust_text(s[1]).startswith(pre) for pre in self.cfg.get("ignore_stmts", [])):
             return cont()
+        if kind == "expr" and s[1][0] == "try" and s[1][1][0] == "mcall" and self.is_parser(s[1][1][1]) and s[1][1][2] == "read_data" \
+                and len(s[1][1][3]) == 1:
+            # `parser.read_data(&mut buf)?` into a fixed-size local buffer the table knows: the bytes read become `buf`
+            a = s[1][1][3][0]
+            while a[0] in ("ref", "paren"):
+                a = a[1]
+            if a[0] == "path" and len(a[1]) == 1 and a[1][0] in self.cfg.get("read_into", {}):
+                var = self.v(a[1][0])
+                return f"(({self.cfg['read_into'][a[1][0]]}).bind fun ({var}, bs) =>\n{cont()})"
         if kind == "expr" and s[1][0] == "iflet" and s[1][4] is None:
             _, ipat, scrut, th, _el = s[1]
             key = self.rust_text(scrut)
